@@ -150,6 +150,25 @@ func runC38() {
 			}
 		}
 	}
+	// a connection may be torn down while allocations are still being made
+	// (GetPeer, then a disconnect, then NextStreamID): the identifiers handed
+	// out during and after the teardown are subject to the same clauses
+	for c := 0; c < nConns; c++ {
+		for r := 0; r < 2; r++ {
+			if simrt.Chance(1, 4, "close-while-allocating") {
+				e := ends[c][r]
+				after := simrt.Choose(30, "close-after-yields")
+				g.Go(fmt.Sprintf("close.c%d.%s", c, roleName(r)), func() {
+					for i := 0; i < after; i++ {
+						simrt.Yield()
+					}
+					simrt.Eventf("close conn=%d %s", e.conn, roleName(r))
+					simrt.Probe("closed_while_allocating")
+					e.closer()
+				})
+			}
+		}
+	}
 	g.Wait()
 	for c := 0; c < nConns; c++ {
 		checkHistory(c, ends[c][roleDialer], ends[c][roleAcceptor])
